@@ -1159,7 +1159,7 @@ def FIBER(
     h = (
         length
         if (beta_2 == 0 and beta_3 == 0) or gamma == 0
-        else step(A)
+        else min(step(A), length)  # a weak field must not overshoot the fibre (exp(D_op*h) would underflow, then 0*inf = nan)
     )
 
     x_length = h
